@@ -58,6 +58,7 @@ static char failmsg[1024];
 static char fatalmsg[512];
 static int fire_log[MAXT + 64], nfire;
 static int last_fired_key;
+static int farkey;          /* closure: this key value stands for a never-expiring, very distant expiry */
 
 struct result {
 	unsigned long states, ops, drains, fired;
@@ -209,7 +210,10 @@ static struct tslot *new_slot(int key)
 
 static void set_expiry(struct tslot *s)
 {
-	if (s->key >= 1000000) {        /* future key: never expires */
+	if (farkey && s->key == farkey) {
+		s->t->expires.tv_sec = 3000000000L;     /* more than 2^31 s from the others */
+		s->t->expires.tv_nsec = 0;
+	} else if (s->key >= 1000000) {        /* future key: never expires */
 		s->t->expires.tv_sec = FUTURE_SEC;
 		s->t->expires.tv_nsec = s->key - 1000000;
 	} else {
@@ -393,11 +397,19 @@ static void cq_push(const struct cstate *c)
 }
 
 /* check drain order against sorted model */
+static int count_expiring(const struct cstate *c)
+{
+	int i, n = 0;
+	for (i = 0; i < c->n; i++)
+		n += !(farkey && c->k[i] == farkey);
+	return n;
+}
+
 static int check_drain_sorted(const struct cstate *c)
 {
 	int i, last = -1;
-	if (nfire != c->n) {
-		snprintf(failmsg, sizeof(failmsg), "%d of %d expired timers fired", nfire, c->n);
+	if (nfire != count_expiring(c)) {
+		snprintf(failmsg, sizeof(failmsg), "%d of %d expired timers fired", nfire, count_expiring(c));
 		return -1;
 	}
 	for (i = 0; i < nfire; i++) {
@@ -436,13 +448,13 @@ static void closure(int N, int K, double deadline, int handlers_M)
 		snprintf(curdesc, sizeof(curdesc), "closure %s drain", sd);
 		instantiate(&c);
 		if (check_heap(c.n) < 0 || check_slots() < 0) { report("harness-self-check"); return; }
-		if (drain(c.n) < 0) { report("timer-order"); return; }
+		if (drain(count_expiring(&c)) < 0) { report("timer-order"); return; }
 		if (check_drain_sorted(&c) < 0) { report("timer-order"); return; }
-		if (check_heap(0) < 0) { report("timer-heap"); return; }
+		if (check_heap(c.n - count_expiring(&c)) < 0) { report("timer-heap"); return; }
 		clear_heap();
 
 		/* handler programs (part "handlers"): only for small states */
-		if (handlers_M && c.n >= 2 && c.n <= handlers_M) {
+		if (handlers_M && !farkey && c.n >= 2 && c.n <= handlers_M) {
 			int i, j;
 			for (i = 0; i < c.n - 0; i++) {
 				/* (1) the i-th handler unregisters the timer that fires j-th, j>i */
@@ -720,6 +732,7 @@ int main(int argc, char **argv)
 	int K = atoi(arg(argc, argv, "keys", "3"));
 	int M = atoi(arg(argc, argv, "handlers", "0"));
 	int D = atoi(arg(argc, argv, "depth", "3"));
+	farkey = atoi(arg(argc, argv, "farkey", "0"));
 	int W = atoi(arg(argc, argv, "workers", "16"));
 	double dl = atof(arg(argc, argv, "deadline", "0"));
 	const char *out = arg(argc, argv, "out", NULL);
